@@ -42,3 +42,20 @@ gen("C15", "C15 — maximum drawdown is the worst peak-to-trough loss and its da
     ("c15_calculate", "calculate_drawdown", "Through calculate: the reported drawdown is that minimum on the compounded return index, the reported start and end dates are the snapshot dates at positions start <= end whose index values realise exactly that loss, and -1 < mdd <= 0."),
     ("c15_refuted_q_maxdd_last_positions", "c15_refuted_q_maxdd_last_positions", "Refuted for the code as it was (it returned the positions of the LAST peak and trough): path 100, 50, 200, 190 has its maximum drawdown -50 % between positions 0 and 1; the defective scan reported positions 2 and 3 (the -5 % dip)."),
 ])
+
+IMPF = """From Coq Require Import ZArith NArith List Bool String Floats Reals.
+From Flocq Require Import IEEE754.BinarySingleNaN IEEE754.PrimFloat.
+From Alator Require Import Model.Num Model.Quirks Model.Broker Model.Perf Proofs.MaxddFloat.
+Import ListNotations."""
+gen("C15float", "C15 AT THE IEEE binary64 INSTANCE — the rounding gap of the [R] theorems closed for the drawdown scan. "
+    "Statements only. `fin_pos x`: x is a finite, strictly positive binary64 value (Flocq's reading of Coq's primitive "
+    "float); `fdd x p` is the drawdown of x from peak p EXACTLY as the code computes it, `x / p - 1.0` in binary64 with "
+    "both roundings. Because correctly rounded division and subtraction are monotone, the scan's answer is the minimum of "
+    "those float expressions over all i <= j, bit for bit — no real-number idealisation, overflow of v_j / v_i to "
+    "+infinity included. Depends on the specification axioms the standard library declares for its primitive floats "
+    "(FloatAxioms.*_spec) and on the classical real-number axioms (through Flocq).", IMPF, [
+    ("c15f_scan", "maxdd_float_spec", "On any non-empty path of finite positive binary64 values the scan (the model instance that is compared bit-for-bit with the code) returns positions start <= end inside the path, the reported drawdown IS the float expression fdd v_end v_start, and it is <= fdd v_j v_i for every i <= j.", True),
+    ("c15f_bounds", "maxdd_float_bounds", "It lies between -1 and 0 (float comparisons) …", True),
+    ("c15f_monotone", "maxdd_float_monotone_zero", "… and is exactly +0.0 when the path never falls.", True),
+    ("c15f_example", "maxdd_float_witness", "Non-vacuity, kernel-evaluated: 100, 50, 200, 190 meets the premises and gives (-0.5, 0, 1).", True),
+])
